@@ -26,7 +26,22 @@ CLAIMED = {
 PENDING_REASON = 'check not built yet at this commit (planned in DESIGN.md §5; no other technique is substituted)'
 
 
+def collect_claims():
+    """CLAIM = {'technique':..,'text':..,'note':..} literals in harness/props/cNN.py"""
+    import ast
+    d = os.path.join(VERIF, 'harness', 'props')
+    for fn in sorted(os.listdir(d)):
+        if not (fn.startswith('c') and fn.endswith('.py')):
+            continue
+        tree = ast.parse(open(os.path.join(d, fn)).read())
+        for n in tree.body:
+            if isinstance(n, ast.Assign) and getattr(n.targets[0], 'id', None) == 'CLAIM':
+                c = ast.literal_eval(n.value)
+                CLAIMED[fn[:-3].upper()] = (c['technique'], c['text'], c['note'])
+
+
 def main():
+    collect_claims()
     props = [json.loads(l) for l in open(os.path.join(VERIF, 'properties.jsonl'))]
     checks, na = [], []
     for p in props:
